@@ -21,15 +21,17 @@ def budget_for(data):
     return BUDGET_K * len(data) + BUDGET_C
 
 
-def _entry(name, data, password=""):
+def _entry(name, data, password="", caching=True):
+    """caching: the option every entry point has for the object / resource caches (extract_text and extract_pages call
+    it caching, extract_text_to_fp disable_caching); with it off getobj re-reads objects on every request"""
     from pdfminer.high_level import extract_pages, extract_text, extract_text_to_fp
     if name == "extract_text":
-        return lambda: extract_text(io.BytesIO(data), password=password)
+        return lambda: extract_text(io.BytesIO(data), password=password, caching=caching)
     if name == "extract_pages":
         def go():
             n = 0
             txt = []
-            for page in extract_pages(io.BytesIO(data), password=password):
+            for page in extract_pages(io.BytesIO(data), password=password, caching=caching):
                 n += 1
                 txt.append(_page_text(page))
             return "\f".join(txt)
@@ -37,7 +39,7 @@ def _entry(name, data, password=""):
     if name == "extract_text_to_fp:xml":
         def go():
             out = io.BytesIO()
-            extract_text_to_fp(io.BytesIO(data), out, output_type="xml", password=password)
+            extract_text_to_fp(io.BytesIO(data), out, output_type="xml", password=password, disable_caching=not caching)
             return out.getvalue()
         return go
     raise ValueError(name)
@@ -55,7 +57,7 @@ def _page_text(o):
 _meter = None
 
 
-def run_all(data, password=""):
+def run_all(data, password="", caching=True):
     """-> list of (entry, outcome class, lines, digest-able result or exception text)"""
     global _meter
     if _meter is None:
@@ -64,7 +66,7 @@ def run_all(data, password=""):
     out = []
     b = budget_for(data)
     for e in ENTRIES:
-        res, exc = _meter.run(_entry(e, data, password), b, cpu=CPU_LIMIT)
+        res, exc = _meter.run(_entry(e, data, password, caching), b, cpu=CPU_LIMIT)
         oc = classify(_meter, exc)
         detail = res if exc is None else "%s: %s" % (type(exc).__name__, str(exc)[:200])
         out.append((e, oc, _meter.count, detail))
